@@ -143,3 +143,9 @@ package analyzer
 //@   requires resolved != nil
 //@   ensures [total] true
 //@   loop 1 invariant fresh(seen) && seen != nil
+
+// Entry points of the analyzer as seen from the server (bodies not verified here).
+//@ trusted (*Analyzer).Analyze
+//@   ensures result != nil
+//@ trusted (*Analyzer).AnalyzeResolved
+//@   ensures result != nil
